@@ -867,14 +867,14 @@ impl<'a> Parser<'a> {
             return Ok(());
         }
 
+        // N.B. A `,` or `{` that opens a branch of an alternation never
+        // gets here: the branch has no tokens yet and is handled above. If
+        // the previous character is one of those anyway, then it was escaped
+        // and is an ordinary literal.
         if !prev.map(is_separator).unwrap_or(false) {
-            if self.stack.len() <= 1
-                || (prev != Some(',') && prev != Some('{'))
-            {
-                self.push_token(Token::ZeroOrMore)?;
-                self.push_token(Token::ZeroOrMore)?;
-                return Ok(());
-            }
+            self.push_token(Token::ZeroOrMore)?;
+            self.push_token(Token::ZeroOrMore)?;
+            return Ok(());
         }
         let is_suffix = match self.peek() {
             None => {
